@@ -893,7 +893,7 @@ func (c *control) getEFGarg(ff *floatFormatter) {
 	case *slip.Bignum:
 		num := (*big.Int)(ta)
 		ff.neg = num.Sign() < 0
-		num = num.Abs(num)
+		num = new(big.Int).Abs(num)
 		ff.digits = num.Append(nil, 10)
 	case slip.Real:
 		num := ta.RealValue()
